@@ -33,17 +33,9 @@ def run(cx):
     parse = cx.func(REL, "LLParser.parse", "R03c")
     nullables = params(ver)[1]
 
-    # helper names: which nested function abandons the production / steps to the next symbol
-    helpers = {f.name: f for f in ast.walk(ver) if isinstance(f, FUNC) and f is not ver}
-    abandon = step = None
-    for nm, f in helpers.items():
-        txt = " ; ".join(norm(s) for s in f.body)
-        if "[2] += 1" in txt and "[3] = 0" in txt:
-            abandon = nm
-        elif "[3] += 1" in txt and "[2]" not in txt:
-            step = nm
-    cx.need(abandon and step, "R03a", ver, "the two cursor helpers (next production / next symbol) not recognised")
-
+    # The DFS cursor lives in the stack entries [symbol, productions, production index, symbol index]: "abandon the production"
+    # is `<entry>[2] += 1`, "step past a symbol" is `<entry>[3] += 1`, wherever they are written (local helpers taking the
+    # stack or the entry, wrappers around them).  All local helpers are expanded in place and the sites are found by effect.
     def bool_defs(name):
         """tests defining a boolean local: list of (test expr or True/False const)"""
         out = []
@@ -73,15 +65,21 @@ def run(cx):
                     return f"{norm(e.left)} in {nullables}"
         return None
 
-    # wrappers around the two cursor helpers (`_step_over(stack, sym)`: nullable -> next symbol, else next production) are
-    # expanded in place, so every site is judged by the facts that hold where the cursor actually moves
     from sa.inline import inlined
-    ver_i, used_i = inlined(cx.repo.modules[REL], ver, exclude=(abandon, step))
+    ver_i, used_i = inlined(cx.repo.modules[REL], ver, depth=4)
     if used_i:
         cx.note(f"R03a: {used_i} expanded in place")
+
+    def cursor_field(st):
+        """2 / 3 for `<entry>[2] += 1` / `<entry>[3] += 1` (entry: a name or <stack>[-1]), else None"""
+        if isinstance(st, ast.AugAssign) and isinstance(st.op, ast.Add) and const(st.value, int) and st.value.value == 1 and isinstance(st.target, ast.Subscript) \
+                and const(st.target.slice, int) and st.target.slice.value in (2, 3):
+            return st.target.slice.value
+        return None
     n_ab = n_st = 0
     for c in walk_local(ver_i):
-        if isinstance(c, ast.Call) and call_name(c) == abandon:
+        fld = cursor_field(c)
+        if fld == 2:
             n_ab += 1
             fs = facts(c)
             end = any(isinstance(e, ast.Compare) and isinstance(e.ops[0], ast.GtE) and pol and norm(e.comparators[0]).startswith("len(") and norm(e.comparators[0]).endswith(".production)") for e, pol in fs)
@@ -92,12 +90,17 @@ def run(cx):
                 shortcut = [norm(e) for e, pol in fs if pol and isinstance(e, ast.Compare) and isinstance(e.ops[0], ast.In) and "processed" in norm(e.comparators[0])]
                 why = ("the production is abandoned without knowing that a symbol of the skipped prefix is non-nullable" +
                        (f" (only `{shortcut[0]}` is known, and that set also holds nullable symbols: a left recursion hidden behind an already examined nullable symbol is missed)" if shortcut else ""))
-            cx.ob("R03a", c, ok, why)
-        if isinstance(c, ast.Call) and call_name(c) == step:
+            cx.ob("R03a", c, ok, why, stmt=f"abandon #{n_ab}: {norm(c)}")
+            # abandoning a production also restarts its symbol index
+            blk = getattr(parent(c), "body", []) if c in getattr(parent(c), "body", []) else getattr(parent(c), "orelse", [])
+            reset = any(isinstance(x, ast.Assign) and isinstance(x.targets[0], ast.Subscript) and const(x.targets[0].slice, int) and x.targets[0].slice.value == 3
+                        and const(x.value, int) and x.value.value == 0 and norm(x.targets[0].value) == norm(c.target.value) for x in blk)
+            cx.ob("R03a", c, reset, "the next production is walked from its first symbol" if reset else "the symbol index is not reset when the production is abandoned", stmt=f"abandon #{n_ab}: reset")
+        if fld == 3:
             n_st += 1
             nf = nullable_fact(facts(c))
             cx.ob("R03a", c, nf is not None, f"steps past a symbol known nullable ({nf})" if nf else
-                  "the check steps past a symbol without knowing it is nullable (a later symbol would be reported as reachable without consuming a token)")
+                  "the check steps past a symbol without knowing it is nullable (a later symbol would be reported as reachable without consuming a token)", stmt=f"step #{n_st}: {norm(c)}")
     cx.at_least("R03a", "sites abandoning a production", n_ab, 4)
     cx.at_least("R03a", "sites stepping past a symbol", n_st, 2)
     # cycle test: compares the current symbol with every stack entry, raises on equality, precedes any shortcut
